@@ -1409,8 +1409,9 @@ impl NotificationProtocol {
                             let (tx, rx) = oneshot::channel();
                             self.pending_validations.push(Box::pin(async move {
                                 match rx.await {
-                                    Ok(ValidationResult::Accept) =>
-                                        (peer, ValidationResult::Accept),
+                                    Ok(ValidationResult::Accept) => {
+                                        (peer, ValidationResult::Accept)
+                                    }
                                     _ => (peer, ValidationResult::Reject),
                                 }
                             }));
